@@ -173,6 +173,9 @@ def cmd_check(prop, tier, args):
     if agg.runs == 0 and exit_code == 0:
         print("HARNESS-ERROR no run completed")
         exit_code = 2
+    elif agg.oracle_evals == 0 and exit_code == 0:
+        print("HARNESS-ERROR no oracle was evaluated in any run (nothing could be built?): a clean result would be vacuous")
+        exit_code = 2
     return exit_code
 
 
